@@ -708,7 +708,54 @@ class C16(runner.Prop):
             C16._w = Worker(f's{ctx.shard}')
         return C16._w
 
+    def fuzz_case(self, case, ctx):
+        """coverage-guided campaign (atheris / libFuzzer) on the sancov build; oracle inside the target"""
+        import base64
+        import shutil
+        import tempfile
+        pkg, rt = os.environ.get('VERIF_PKG_FUZZ'), os.environ.get('VERIF_FUZZ_RT')
+        if not pkg or not os.path.exists(rt or ''):
+            ctx.note('fuzz build not available: coverage-guided phase skipped')
+            return
+        env = {k: v for k, v in os.environ.items() if k not in ('LD_PRELOAD', 'ASAN_OPTIONS', 'UBSAN_OPTIONS', 'PYTHONMALLOC')}
+        env['PYTHONPATH'] = os.pathsep.join([pkg, str(runner.VERIF), str(runner.VERIF / '.deps')])
+        env['LD_PRELOAD'] = rt
+        work = tempfile.mkdtemp(prefix='c16-fuzz-', dir=str(runner.VERIF / '.build'))
+        try:
+            corpus = os.path.join(work, 'corpus')
+            os.makedirs(corpus)
+            if 'input_b64' in case:          # replay of a saved crashing input
+                f = os.path.join(work, 'input')
+                open(f, 'wb').write(base64.b64decode(case['input_b64']))
+                cmd = [sys.executable, '-m', 'vlib.fuzz_c16', f]
+            else:
+                if case.get('corpus') == 'seeded':
+                    for i in range(64):
+                        open(os.path.join(corpus, f's{i}'), 'wb').write(bytes((i * 37 + j * 11) % 256 for j in range(8 + i % 24)))
+                cmd = [sys.executable, '-m', 'vlib.fuzz_c16', corpus, f'-runs={case["runs"]}', f'-seed={case["seed"]}',
+                       '-max_len=384', f'-artifact_prefix={work}/crash-', '-print_final_stats=1']
+            r = subprocess.run(cmd, env=env, cwd=str(runner.VERIF), capture_output=True, text=True)
+            stats = {ln.split(':')[0].replace('stat::', '').strip(): ln.split(':')[-1].strip()
+                     for ln in r.stderr.splitlines() if ln.startswith('stat::')}
+            cov = [ln for ln in r.stderr.splitlines() if ' cov: ' in ln]
+            if ctx.recording and 'input_b64' not in case:
+                ctx.extra_cov['fuzz_executions'] = ctx.extra_cov.get('fuzz_executions', 0) + int(stats.get('number_of_executed_units', 0) or 0)
+                ctx.extra_cov['fuzz_corpus_units_max'] = int(stats.get('new_units_added', 0) or 0)
+                if cov:
+                    ctx.extra_cov['fuzz_last_status'] = cov[-1][:160]
+            ctx.nontrivial(True)
+            ctx.label('fuzz_campaign')
+            if r.returncode != 0:
+                arts = [f for f in os.listdir(work) if f.startswith('crash-')]
+                b64 = base64.b64encode(open(os.path.join(work, arts[0]), 'rb').read()).decode() if arts else ''
+                tail = ' | '.join(ln.strip() for ln in r.stderr.splitlines()[-30:] if 'Error' in ln or 'ERROR' in ln or 'assert' in ln or 'Fatal' in ln)[:400]
+                ctx.fail('fuzz/crash_or_assertion', f'exit {r.returncode}; input_b64={b64}; {tail}')
+        finally:
+            shutil.rmtree(work, ignore_errors=True)
+
     def check_case(self, case, ctx):
+        if case['kind'] == 'fuzz':
+            return self.fuzz_case(case, ctx)
         res, crash = self.worker(ctx).ask(case)
         kind = case['kind']
         if crash is not None:
@@ -799,6 +846,10 @@ class C16(runner.Prop):
                 for how in muts:
                     ctx.run_case({'kind': 'mutation', 'traversal': c['traversal'], 'container': c['container'],
                                   'position': c['position'], 'mutation': how, 'k': k})
+        if ctx.tier == 'thorough':
+            runs = 300000
+            corpus = 'empty' if ctx.shard % 2 == 0 else 'seeded'
+            ctx.run_case({'kind': 'fuzz', 'runs': runs, 'seed': ctx.seed * 1000 + ctx.shard + 1, 'corpus': corpus})
         if C16._w is not None:
             C16._w.close()
             C16._w = None
